@@ -239,3 +239,76 @@ fn chunk_type_codes() {
     kani::cover!(t == 3);
     kani::cover!(t == 4);
 }
+
+/// A real `Change` value around a given header (the queue, the graph and Chunk::checksum_valid read
+/// only header-level fields; the op columns are empty).
+#[allow(dead_code)]
+pub(crate) fn change_with_header(header: Header) -> crate::storage::Change<'static, crate::storage::change::Unverified> {
+    crate::storage::Change {
+        bytes: std::borrow::Cow::Borrowed(&[]),
+        header,
+        dependencies: Vec::new(),
+        actor: crate::ActorId::from(&[1u8][..]),
+        other_actors: Vec::new(),
+        seq: 1,
+        start_op: std::num::NonZeroU64::new(1).unwrap(),
+        timestamp: 0,
+        message: None,
+        ops_meta: crate::storage::change::ChangeOpsColumns::from(crate::op_set2::change::ChangeOpsColumns::default()),
+        ops_data: 0..0,
+        extra_bytes: 0..0,
+        num_ops: 0,
+        _phantom: std::marker::PhantomData,
+    }
+}
+
+/// A compressed change chunk is valid only if the checksum stored in the OUTER (compressed) header
+/// equals the checksum of the inflated change AND that checksum matches the hash of the inflated
+/// change: Chunk::checksum_valid on CompressedChange, for every hash, every pair of stored checksums.
+#[kani::proof]
+#[kani::unwind(18)]
+fn chunk_compressed_change_checksum_both_levels() {
+    let hash = ChangeHash(kani::any());
+    let inner: [u8; 4] = kani::any();
+    let outer: [u8; 4] = kani::any();
+    let h = Header {
+        checksum: CheckSum::from(inner),
+        chunk_type: ChunkType::Change,
+        data_len: kani::any(),
+        header_size: kani::any(),
+        hash,
+    };
+    let change = change_with_header(h);
+    let compressed = crate::storage::change::Compressed::new(CheckSum::from(outer), std::borrow::Cow::Borrowed(&[]));
+    let chunk = Chunk::CompressedChange(change, compressed);
+    let inner_ok = inner[0] == hash.0[0] && inner[1] == hash.0[1] && inner[2] == hash.0[2] && inner[3] == hash.0[3];
+    let same = inner[0] == outer[0] && inner[1] == outer[1] && inner[2] == outer[2] && inner[3] == outer[3];
+    let v = chunk.checksum_valid();
+    assert_eq!(v, inner_ok && same);
+    kani::cover!(v);
+    kani::cover!(same && !inner_ok);
+    kani::cover!(inner_ok && !same);
+    std::mem::forget(chunk);
+}
+
+/// A real verified `storage::Change` with chosen hash, actor, seq and dependencies (no ops): what
+/// the causal queue, the batch and the change graph read from a change.
+#[allow(dead_code)]
+pub(crate) fn stored_change(hash: ChangeHash, actor: crate::ActorId, seq: u64, deps: Vec<ChangeHash>) -> crate::storage::Change<'static, crate::storage::change::Verified> {
+    crate::storage::Change {
+        bytes: std::borrow::Cow::Borrowed(&[]),
+        header: Header { checksum: CheckSum::from(hash), chunk_type: ChunkType::Change, data_len: 0, header_size: 10, hash },
+        dependencies: deps,
+        actor,
+        other_actors: Vec::new(),
+        seq,
+        start_op: std::num::NonZeroU64::new(1).unwrap(),
+        timestamp: 0,
+        message: None,
+        ops_meta: crate::storage::change::ChangeOpsColumns::from(crate::op_set2::change::ChangeOpsColumns::default()),
+        ops_data: 0..0,
+        extra_bytes: 0..0,
+        num_ops: 0,
+        _phantom: std::marker::PhantomData,
+    }
+}
